@@ -2,9 +2,30 @@
 import re
 from vc import rules as R
 
+import os
+from vc import extract as X
+
 SRC = 'crates/emmylua_code_analysis/src/'
 TC = SRC + 'semantic/type_check/'
 TY = SRC + 'db_index/type/'
+REPO = os.environ.get('VERIF_REPO', '/repo')
+HERE = os.path.dirname(os.path.abspath(__file__))
+
+
+def _raw(file, name, impl=None):
+    src = {'file': file, 'kind': 'fn', 'name': name}
+    if impl: src['impl'] = impl
+    try:
+        return X.find_item(REPO, src).raw
+    except Exception:
+        return ''
+
+
+# HELPER contracts follow the text of the tree under verification (the property-level clauses never do):
+#  * LuaType::from_vec dedupes either with a hash set (then equal members must be hashed by value: dup_coherent) or with `==`
+FROM_VEC_HASHSET = 'HashSet::new()' in _raw(TY + 'types/predicates.rs', 'from_vec', 'LuaType')
+#  * fast_eq_check may or may not compare SelfInfer / StrTplRef / Conditional / Mapped
+FAST_EQ_EXTRA = 'LuaType::SelfInfer, LuaType::SelfInfer' in _raw(TC + 'mod.rs', 'fast_eq_check')
 
 
 def fn(file, name, impl=None, **kw):
@@ -101,7 +122,8 @@ ITEMS = {
         r == sp_like_any(*ty)'''),
     'fast_eq_check': fn(TC + 'mod.rs', 'fast_eq_check', ret='r', ensures='''
         fast_eq_lb(*a, *b) ==> r /*@C16.fast-eq.accepts*/,
-        r ==> fast_eq_ub(*a, *b) /*@C16.fast-eq.nothing-else*/'''),
+        r ==> fast_eq_ub(*a, *b) /*@C16.fast-eq.nothing-else*/''' + ('''
+        , fast_eq_extra(*a, *b) ==> r /*@C16.fast-eq.accepts-equal-template-types*/''' if FAST_EQ_EXTRA else '')),
     'check_general_type_compact': fn(
         TC + 'mod.rs', 'check_general_type_compact', ret='r',
         attrs='#[verifier::spinoff_prover]',
@@ -127,6 +149,19 @@ ITEMS = {
                     assert(compact_type->Intersection_0.types@[k] == compact_intersection.types@[k]);
                     assert(!head_err(old(context).db, *source, compact_intersection.types@[k], check_guard.stack_level + 1));
                 }''')]),
+    'every::check_general_type_compact': fn(
+        TC + 'mod.rs', 'check_general_type_compact', ret='r',
+        attrs='#[verifier::spinoff_prover]\n#[verifier::loop_isolation(false)]',
+        requires=GUARD_REQ,
+        ensures='''
+        ctx_frame(old(context), final(context)),
+        // C16, "any or unknown accepts everything": whatever the value type, whatever the guard depth
+        sp_any_or_unknown(*source) ==> r is Ok /*@C16.any-accepts-everything.at-every-depth*/,
+        // C16, "a value of type T is accepted where T is expected": for every T the unit can state it for (refl_claim)
+        refl_claim(%s, *source) && *source == *compact_type ==> r is Ok /*@C16.reflexive.every-variant*/''' % DBF,
+        decreases='100 - check_guard.stack_level, 3int',
+        iter_names={0: 'it'},
+        loops={0: '''invariant guard_wf(check_guard), ctx_frame(old(context), context),'''}),
     'check_complex_type_compact': fn(
         TC + 'complex_type/mod.rs', 'check_complex_type_compact', ret='r',
         attrs='#[verifier::spinoff_prover]',
@@ -166,33 +201,50 @@ ITEMS = {
 }
 
 UT = TY + 'type_ops/union_type.rs'
-ITEMS.update({
-    'BasicTypeKind': st(TY + 'basic_union.rs', 'BasicTypeKind', kind='enum', attrs='#[derive(Clone, Copy)]'),
-    'BasicTypeKind::from_type': fn(TY + 'basic_union.rs', 'from_type', 'BasicTypeKind', ret='r', ensures='r == sp_kind_of(*value)'),
-    'LuaType::is_number': fn(TY + 'types/predicates.rs', 'is_number', 'LuaType', ret='r', ensures='r == sp_is_number(*self)'),
-    'LuaType::is_union': fn(TY + 'types/predicates.rs', 'is_union', 'LuaType', ret='r', ensures='r == (*self is Union)'),
-    'LuaType::from_vec': fn(
-        TY + 'types/predicates.rs', 'from_vec', 'LuaType', ret='r', attrs='#[verifier::spinoff_prover]',
-        ensures='from_vec_post(types@, r) /*@C16.union.from-vec-is-union-of-distinct-members*/',
-        body_first='let ghost ts = types@; proof { if ts.len() == 1 { lemma_dedupe_single(ts); } }',
-        iter_names={0: 'it', 1: 'it2'},
-        loops={0: '''invariant
-                it.seq() == ts, ts.len() >= 2,
-                batch_hyp(ts) ==> (result_types@ == dedupe(ts.take(it.index@)) && hash_set.elems() == result_types@) /*@C16.union.from-vec-is-union-of-distinct-members.inv*/,''',
-               1: '''invariant
-                it.seq() == ts, ts.len() >= 2, !no_unions(ts),'''},
-        proof=[
-            (r'LuaType::Union\(u\) => \{', 'after', '''proof { assert(ts[it.index@] is Union); }'''),
-            (r'if hash_set\.insert\(typ\.clone\(\)\) \{', 'before', '''proof { if batch_hyp(ts) { lemma_dedupe_step(ts, it.index@); } }'''),
-            (r'match result_types\.len\(\) \{', 'before', '''proof {
+_FV_COMMON = dict(
+    ret='r', attrs='#[verifier::spinoff_prover]',
+    ensures='from_vec_post(types@, r) /*@C16.union.from-vec-is-union-of-distinct-members*/',
+    body_first='let ghost ts = types@; proof { if ts.len() == 1 { lemma_dedupe_single(ts); } }',
+    iter_names={0: 'it', 1: 'it2'})
+_FV_TAIL = (r'match result_types\.len\(\) \{', 'before', '''proof {
                     if batch_hyp(ts) {
                         assert(ts.take(ts.len() as int) == ts);
                         lemma_dedupe_props(ts);
                         let d = dedupe(ts);
                         if d.len() >= 2 { assert(ts.contains(d[0])); }
                     }
-                }'''),
-        ]),
+                }''')
+if FROM_VEC_HASHSET:
+    FROM_VEC = fn(TY + 'types/predicates.rs', 'from_vec', 'LuaType',
+        loops={0: '''invariant
+                it.seq() == ts, ts.len() >= 2,
+                batch_hyp(ts) ==> (result_types@ == dedupe(ts.take(it.index@)) && hash_set.elems() == result_types@) /*@C16.union.from-vec-is-union-of-distinct-members.inv*/,''',
+               1: '''invariant
+                it.seq() == ts, ts.len() >= 2, !no_unions(ts),'''},
+        proof=[
+            (r'LuaType::Union\(u\) => \{', 'after', 'proof { assert(ts[it.index@] is Union); }'),
+            (r'if hash_set\.insert\(typ\.clone\(\)\) \{', 'before', 'proof { if batch_hyp(ts) { lemma_dedupe_step(ts, it.index@); } }'),
+            _FV_TAIL,
+        ], **_FV_COMMON)
+else:
+    # dedupe by a `==` scan of the result list (proposed_fix_hash_eq.diff): no hash set, no hypothesis about hashing
+    FROM_VEC = fn(TY + 'types/predicates.rs', 'from_vec', 'LuaType', rules=['c16-contains'],
+        loops={0: '''invariant
+                it.seq() == ts, ts.len() >= 2,
+                batch_hyp(ts) ==> result_types@ == dedupe(ts.take(it.index@)) /*@C16.union.from-vec-is-union-of-distinct-members.inv*/,''',
+               1: '''invariant
+                it.seq() == ts, ts.len() >= 2, !no_unions(ts),'''},
+        proof=[
+            (r'LuaType::Union\(u\) => \{', 'after', 'proof { assert(ts[it.index@] is Union); }'),
+            (r'if !vx_contains\(&result_types, &typ\) \{', 'before', 'proof { if batch_hyp(ts) { lemma_dedupe_scan_step(ts, it.index@); } }'),
+            _FV_TAIL,
+        ], **_FV_COMMON)
+ITEMS.update({
+    'BasicTypeKind': st(TY + 'basic_union.rs', 'BasicTypeKind', kind='enum', attrs='#[derive(Clone, Copy)]'),
+    'BasicTypeKind::from_type': fn(TY + 'basic_union.rs', 'from_type', 'BasicTypeKind', ret='r', ensures='r == sp_kind_of(*value)'),
+    'LuaType::is_number': fn(TY + 'types/predicates.rs', 'is_number', 'LuaType', ret='r', ensures='r == sp_is_number(*self)'),
+    'LuaType::is_union': fn(TY + 'types/predicates.rs', 'is_union', 'LuaType', ret='r', ensures='r == (*self is Union)'),
+    'LuaType::from_vec': FROM_VEC,
     'LuaUnionType::from_vec': fn(
         TY + 'types/complex.rs', 'from_vec', 'LuaUnionType', ret='r', rules=['c16-contains', 'c16-find-non-nil'], attrs='#[verifier::spinoff_prover]',
         ensures='union_from_vec_post(types@, r) /*@C16.union.from-vec-keeps-members*/',
@@ -312,7 +364,8 @@ ITEMS.update({
         ensures='''
         has_any(types@) ==> r is Any /*@C16.union.batch.any-absorbs*/,
         !has_any(types@) && drop_never(types@).len() == 0 ==> r is Never /*@C16.union.batch.empty-is-never*/,
-        (!has_any(types@) && drop_never(types@).len() >= 1 && fold_hyp(drop_never(types@)) && dup_coherent(drop_never(types@)))
+        // the batch result is the union of the distinct members, as the one-at-a-time fold's is (union_fold) - for EVERY structural batch
+        (!has_any(types@) && drop_never(types@).len() >= 1 && fold_hyp(drop_never(types@)))
             ==> union_of(r, dedupe(drop_never(types@))) /*@C16.union.batch-is-union-of-distinct-members*/''',
         body_first='let ghost ts0 = types@;',
         iter_names={0: 'it', 1: 'it2'},
@@ -338,7 +391,7 @@ ITEMS.update({
     let ghost ts = result_types@;'''),
             (r'return LuaType::from_vec\(result_types\);', 'before', '''proof {
             assert(structural_batch(ts)) /*@C16.union.fast-path-only-for-structural-batches*/;
-            if fold_hyp(ts) && dup_coherent(ts) { assert(batch_hyp(ts)); }
+            if fold_hyp(ts) && dedupe_hyp(ts) { assert(batch_hyp(ts)); }
         }'''),
             (r'result = union_type\(db, result, typ\);', 'before', 'let ghost acc0 = result;'),
             (r'result = union_type\(db, result, typ\);', 'after', '''proof {
@@ -448,14 +501,20 @@ ITEMS.update({
         loops={0: '''invariant guard_wf(check_guard), ctx_frame(old(context), context), !is_class_decl(old(context).db, *source_id),'''}),
 })
 
-import os
-if os.environ.get('C16_STRICT'):
-    # the property-level clause WITHOUT the side hypothesis "a later member equal to an earlier one is of a variant hashed by value":
-    # fails on the unchanged tree (finding E1..E4 of replay/output.txt)
-    ITEMS['union_type_all']['ensures'] = ITEMS['union_type_all']['ensures'].replace(
-        ' && dup_coherent(drop_never(types@)))', ')').replace('/*@C16.union.batch-is-union-of-distinct-members*/', '/*@C16.union.batch-is-union-of-distinct-members.strict*/')
+
+_GEN = {
+    'dedupe_hyp': ('/// generated from the text of LuaType::from_vec (%s)\npub open spec fn dedupe_hyp(ts: Seq<LuaType>) -> bool { %s }'
+                   % (('it dedupes with a HashSet<LuaType>: a later member equal to an earlier one must be hashed by value', 'dup_coherent(ts)')
+                      if FROM_VEC_HASHSET else ('it dedupes with a `==` scan: no hypothesis about hashing', 'true'))),
+}
+with open(os.path.join(HERE, 'template.rs'), encoding='utf-8') as _f:
+    _TEMPLATE = _f.read()
+for _k, _v in _GEN.items():
+    assert _TEMPLATE.count('//@@gen ' + _k + '\n') == 1
+    _TEMPLATE = _TEMPLATE.replace('//@@gen ' + _k + '\n', _v + '\n')
 
 UNIT = {
+    'template_text': _TEMPLATE,
     'items': ITEMS,
     'extra_rules': [
         ('c16-letchain-enum-fields',
@@ -531,19 +590,25 @@ UNIT = {
         'hashbrown::HashSet<LuaType>::insert (used by LuaType::from_vec): returns true when no stored element equals the value; returns false when some stored element equals it '
         'AND the value is of a variant whose `impl Hash for LuaType` arm hashes the payload by value (hash_by_value: the 15 field-less variants, BooleanConst, StringConst, '
         'IntegerConst, TableConst, Ref, Def, DocBooleanConst, Signature, DocStringConst, DocIntegerConst, Namespace, Language, ModuleRef); otherwise unspecified. '
-        'This is a READING of `impl Hash for LuaType` (Arc::as_ptr / f64::to_bits arms), not a proof; units/c16_laws/replay/output.txt confirms both sides on the real crate',
+        'This is a READING of `impl Hash for LuaType` (Arc::as_ptr / f64::to_bits arms), not a proof; /verif/replay/c16 confirms both sides on the real crate. '
+        'The shim and the hypothesis dup_coherent are used only while LuaType::from_vec dedupes with a HashSet (unit.py looks at its text: FROM_VEC_HASHSET); with the `==` scan of '
+        'proposed_fix_hash_eq.diff the helper contract needs neither',
         'BasicTypeUnion (u32 bit set, `impl Iterator` chain): new/add/iter().collect() are shims over an abstract set of BasicTypeKind; members are listed in discriminant order',
         'vx_tpl_escape / vx_type_ne / vx_arc_type_eq / vx_arc_types_eq: wrappers whose body is the replaced expression; trusted: the value is a function of the arguments',
         'guard_wf (0 <= stack_level <= 100) is a precondition of the checkers: TypeCheckGuard\'s field is private and only new() (0) and next_level() (<= 100, proved) build one',
         'termination of check_sub_type_of_iterative is not proved (exec_allows_no_decreases_clause)',
+        'helper contracts that follow the text of the tree under verification (never a property-level clause): from_vec overlay + dedupe_hyp (HashSet or `==` scan), and the extra '
+        'fast_eq_check clause C16.fast-eq.accepts-equal-template-types (present only when fast_eq_check compares SelfInfer/StrTplRef/Conditional/Mapped). The two clauses that fail on '
+        '/repo sit on a second copy of the dispatch function (module c16_every, same extracted text) so that no other contract is proved from them through recursive calls',
     ],
     'samples': [
         'check_general_type_compact: sp_like_any(compact) ==> Ok at every guard depth [C16.any-is-accepted-everywhere]; fast_eq_lb(source, compact) ==> Ok [C16.reflexive.head-guard]; '
         'head_ok(db, source, compact, depth) ==> Ok; head_err(...) ==> Err; a Union source never answers "mismatch" for a head-accepted member [C16.union-never-mismatches-member]',
-        'law_any_accepts_unescaped: source any/unknown accepts every compact type of the 37 variants escape_type never replaces (not Intersection) at EVERY depth; '
-        'any_rejected_at_depth_limit / any_rejected_by_long_escape_chain / any_rejected_by_empty_intersection: where it does not',
+        'c16_every::check_general_type_compact: any/unknown expected ==> Ok whatever the value type and depth [C16.any-accepts-everything.at-every-depth]; '
+        'refl_claim(T) && source == compact ==> Ok [C16.reflexive.every-variant] (head-guard variants, 10 simple variants, never, Def of a class, SelfInfer, StrTplRef, Conditional, Mapped) - both FAIL on /repo',
+        'law_any_accepts_unescaped: source any/unknown accepts every compact type of the 37 variants escape_type never replaces (not Intersection) at EVERY depth (holds on /repo)',
         'law_reflexive_head_guard (13 unit variants, Ref, Generic with reflexive ==), law_reflexive_simple (10 literal/namespace/language variants, via the real check_simple_type_compact), '
-        'never, TypeGuard (below depth 100), Instance (conditionally); not_reflexive_for_unlisted_sources (SelfInfer, Conditional, Mapped), not_reflexive_for_str_tpl_ref',
+        'never, TypeGuard (below depth 100; proved Err at depth 100), Instance (conditionally)',
         'law_union_accepts_first_member / law_union_never_mismatches_member / closable_members',
         'check_sub_type_of_iterative: (exists n. ancestor_within(index, sub, super, n)) ==> true; check_ref_class: descends(db, compact, source_id) ==> Ok; '
         'check_ref_type_compact: is_class_decl(db, source_id) && descends(..) ==> Ok; law_class_accepted_where_ancestor_expected: head_ok(db, Ref(anc), Ref(cls), every depth)',
@@ -567,27 +632,27 @@ UNIT = {
         '(`Generic(generic)` arm of check_ref_class is extracted but not under a law); soundness of the walk ("only then"; is_base_type_id can also answer true); termination of the walk',
         'sentence 4 (any/unknown accepts everything): for compact types that escape_type replaces the law holds only while the chain of replacements fits the remaining depth, and '
         'for an Intersection only if some component gets through (esc_ok); source `any` against deep recursion inside branch checkers (they call back with next_level) inherits the depth of the call',
-        'sentence 5 (batch union): proved for batches that pass can_use_structural_union and in which a later member equal (==) to an earlier one is of a value-hashed variant '
-        '(dup_coherent) and == is reflexive and symmetric on the batch members (eq_regular; both hold for every batch of value-hashed variants: lemma_value_batches_are_regular). '
+        'sentence 5 (batch union): claimed for every batch that passes can_use_structural_union and on whose members == is reflexive and symmetric (eq_regular: the PartialEq/Eq contract; '
+        'FloatConst(NaN) is outside). On /repo the clause fails (hash-set dedupe); with the `==` scan it is proved. '
         'The slow path is the fold by construction (same text as union_fold). NOT covered: the effect of dropping `never` members before folding (union_type(acc, never) is acc only '
         'if the alias-resolved acc is not any: batch [Ref(alias of any), never] gives Ref(..) in batch mode and any one at a time), batches with Ref/Union/MultiLineUnion/callable members '
         '(alias lookup, canonicalize_callable_union\'s dedupe loop: shims), equality of the two results under LuaUnionType::eq (uninterpreted; proved is equality of the duplicate-free member SETS)',
         'check_type_compact_detail / _with_level entry points (same dispatch, other context flags), check_union_type_compact_union beyond head_ok, termination of the sub-type walk',
     ],
     'findings': [
-        'C16 sentence 5, FINDING (replay driver: units/c16_laws/replay, built in build/c16_laws; output.txt E1..E4): union_type_all takes the LuaType::from_vec fast path for a batch that contains two EQUAL members of a '
+        'C16 sentence 5, FINDING (replay driver: /verif/replay/c16, `FOUND[C16.union.batch-is-union-of-distinct-members]` lines): union_type_all takes the LuaType::from_vec fast path for a batch that contains two EQUAL members of a '
         'pointer-hashed variant. from_vec dedupes with a HashSet<LuaType>, and `impl Hash for LuaType` hashes Object/Union/Intersection/Generic/TableGeneric/TplRef/StrTplRef/Variadic/'
         'MultiLineUnion/TypeGuard/Conditional/Mapped by Arc::as_ptr and FloatConst by bits while `==` compares contents: equal values in different allocations are both kept. '
         'Batch [A<integer>, A<integer>] (the annotation written twice): batch result Union(Multi[A<integer>, A<integer>]), one at a time: A<integer>; same for [{x: integer}, {x: integer}], '
-        '[table<string,integer>, table<string,integer>], [0.0, -0.0]. Strict clause: C16_STRICT=1 ./check --unit c16_laws fails exactly at C16.union.batch-is-union-of-distinct-members.strict',
+        '[table<string,integer>, table<string,integer>], [0.0, -0.0]. OPEN on /repo: the clause C16.union.batch-is-union-of-distinct-members (on union_type_all, always on) fails; repair: proposed_fix_hash_eq.diff (dedupe by `==`)',
         'C16 sentence 5, FINDING (E7, by the step contract of union_type_impl + replay): `never` members are dropped before folding, but union_type(acc, never) is not acc when acc is a Ref to an '
         'alias of any (match_source = the alias origin = any, first arm): batch [AnyAlias, never] gives Ref(AnyAlias), one at a time gives any (semantically the same type, different value)',
         'C16 sentence 5, observation (E5): for [nil, K, string] batch gives Multi[nil, K, string], one at a time Multi[K, nil, string] (Nullable(K) is unpacked as [K, nil]): equal under ==, '
         'different member order (visible in rendered type text and in first-match order)',
-        'C16 sentence 1, FINDING (proved: not_reflexive_for_unlisted_sources, not_reflexive_for_str_tpl_ref; replay confirms self and StrTplRef): check(T, T) is Err for T = SelfInfer (`self`), '
+        'C16 sentence 1, FINDING (OPEN on /repo: clause C16.reflexive.every-variant on c16_every::check_general_type_compact fails; replay confirms self and StrTplRef; repair: proposed_fix_reflexive.diff): check(T, T) is Err for T = SelfInfer (`self`), '
         'Conditional, Mapped (no arm in the dispatch `match source`, they fall to `_ => Err(TypeNotMatch)`) and for T = StrTplRef (the StrTplRef arm of check_simple_type_compact asks '
         'compact_type.is_string(), which does not list StrTplRef). TypeGuard, Instance and every other escaping type are not reflexive at guard depth 100 (law_reflexive_typeguard)',
-        'C16 sentence 4, FINDING (proved: any_rejected_at_depth_limit, any_rejected_by_long_escape_chain, any_rejected_by_empty_intersection; replay confirms the last): with source any/unknown the '
+        'C16 sentence 4, FINDING (OPEN on /repo: clause C16.any-accepts-everything.at-every-depth on c16_every::check_general_type_compact fails at its three exits; replay confirms the alias chain and the empty intersection; repair: proposed_fix_any_first.diff): with source any/unknown the '
         '`Unknown | Any => Ok` arm comes AFTER the escape_type recursion (`check_guard.next_level()?`) and after the Intersection loop: any rejects a value whose type needs more escape steps than the '
         'remaining depth (101 chained aliases from the entry point - replayed: check(any, Ch0) fails, check(any, Ch60) passes; fewer when called from inside a deep check) with Err(TypeRecursion), and rejects an intersection without components with Err(TypeNotMatch). '
         'Pure alias cycles are collapsed to any at declaration time (type_def_tags.rs: alias_origin_reaches), so they do not reach this',
@@ -610,7 +675,7 @@ UNIT = {
          'pattern': r'LuaType::Any \| LuaType::Unknown => true', 'repl': 'LuaType::Any => true',
          'expect': r'C16\.any-is-like-any'},
         {'name': 'any-source-arm-rejects', 'item': 'check_general_type_compact',
-         'pattern': r'LuaType::Unknown \| LuaType::Any => Ok\(\(\)\),', 'repl': 'LuaType::Unknown => Ok(()),',
+         'pattern': r'LuaType::Unknown \| LuaType::Any(?= => Ok|\) \{\s*return Ok)', 'repl': 'LuaType::Unknown',
          'expect': r'C16\.head-ok-accepts'},
         {'name': 'selfinfer-accepted', 'item': 'check_general_type_compact',
          'pattern': r'_ => Err\(TypeCheckFailReason::TypeNotMatch\),\s*\}\s*\}$', 'repl': '_ => Ok(()),\n    }\n}',
